@@ -4,6 +4,7 @@ package connectconformance
 
 import (
 	"crypto/sha256"
+	"encoding/json"
 	"fmt"
 	"os"
 	"path/filepath"
@@ -519,4 +520,79 @@ func TestVerifC07Embedded(t *testing.T) {
 	rep.Distinct = rep.Counts["permutations_checked"]
 	rep.Exhaustive = true
 	rep.Sample(map[string]any{"config": "testing/reference-impls-config.yaml", "mode": "server", "check": "every produced permutation name, request axes, TLS markers, service/method, server group, gRPC-peer marked twin"})
+}
+
+// TestVerifC07ParseModeRules: hand-crafted (raw) requests exist only in
+// server-mode suites and raw responses only in client-mode suites; the loader
+// enforces that whatever else the test case contains.
+func TestVerifC07ParseModeRules(t *testing.T) {
+	rep := verifkit.Begin("C07", "parse-mode-rules", "suite files through parseTestSuites: mode {unset, client, server} x raw payload {raw request, raw response in a unary / stream definition} x {with, without request messages; with extra ordinary cases before/after} x stream types; oracle: accepted exactly when a raw request sits in a server-mode suite / a raw response in a client-mode suite; ordinary cases are accepted in every mode; distinct = (mode, payload, shape)")
+	defer rep.Write()
+	modes := []string{"", "TEST_MODE_CLIENT", "TEST_MODE_SERVER"}
+	stNames := []string{"STREAM_TYPE_UNARY", "STREAM_TYPE_CLIENT_STREAM", "STREAM_TYPE_SERVER_STREAM", "STREAM_TYPE_HALF_DUPLEX_BIDI_STREAM", "STREAM_TYPE_FULL_DUPLEX_BIDI_STREAM"}
+	msgTypes := []string{"UnaryRequest", "ClientStreamRequest", "ServerStreamRequest", "BidiStreamRequest", "BidiStreamRequest"}
+	for mi, mode := range modes {
+		for _, payload := range []string{"none", "raw-request", "raw-response"} {
+			for st := 0; st < 5; st++ {
+				for _, withMsgs := range []bool{true, false} {
+					for _, neighbours := range []bool{false, true} {
+						if payload == "raw-response" && !withMsgs {
+							continue // a raw response lives in the first request message
+						}
+						req := map[string]any{"testName": "crafted", "streamType": stNames[st]}
+						if withMsgs {
+							msg := map[string]any{"@type": "type.googleapis.com/connectrpc.conformance.v1." + msgTypes[st]}
+							if payload == "raw-response" {
+								msg["responseDefinition"] = map[string]any{"rawResponse": map[string]any{"statusCode": 200}}
+							}
+							req["requestMessages"] = []any{msg}
+						}
+						tc := map[string]any{"request": req}
+						if payload == "raw-request" {
+							req["rawRequest"] = map[string]any{"verb": "POST", "uri": "/x"}
+						}
+						if payload != "none" {
+							tc["expectedResponse"] = map[string]any{}
+						}
+						cases := []any{tc}
+						if neighbours {
+							plain := func(n string) any {
+								return map[string]any{"request": map[string]any{"testName": n, "streamType": stNames[st], "requestMessages": []any{map[string]any{"@type": "type.googleapis.com/connectrpc.conformance.v1." + msgTypes[st]}}}}
+							}
+							cases = []any{plain("before"), tc, plain("after")}
+						}
+						suite := map[string]any{"name": "Mode Rules", "testCases": cases}
+						if mode != "" {
+							suite["mode"] = mode
+						}
+						js, _ := json.Marshal(suite)
+						rep.Eval(1)
+						rep.DistinctKey(mi, payload, st, withMsgs, neighbours)
+						w := map[string]any{"suite_file": string(js)}
+						var err error
+						if p := verifkit.Catch(func() { _, err = parseTestSuites(map[string][]byte{"mode.yaml": js}) }); p != nil {
+							rep.Violation("library/parse/panic/"+p.Site, p.Value, w)
+							continue
+						}
+						wantOK := payload == "none" || (payload == "raw-request" && mode == "TEST_MODE_SERVER") || (payload == "raw-response" && mode == "TEST_MODE_CLIENT")
+						switch {
+						case wantOK && err != nil:
+							rep.Violation("library/parse/over-reject/"+payload, fmt.Sprintf("a %s case in a suite of mode %q is rejected: %v", payload, mode, err), w)
+						case !wantOK && err == nil:
+							shape := "with-messages"
+							if !withMsgs {
+								shape = "without-messages"
+							}
+							rep.Violation("library/parse/mode-rule-not-enforced/"+payload+"/"+shape, fmt.Sprintf("a %s case (%s) in a suite of mode %q was accepted", payload, shape, mode), w)
+						default:
+							rep.Count("parse_mode_rules_agree", 1)
+						}
+					}
+				}
+			}
+		}
+	}
+	rep.Exhaustive = true
+	rep.Sample(map[string]any{"mode": "TEST_MODE_CLIENT", "case": "rawRequest without requestMessages", "expect": "rejected"})
+	rep.RequireMin("parse_mode_rules_agree", 50)
 }
